@@ -107,6 +107,8 @@ func checkC18(p *Prog, r *Report) {
 	r.notCovered("value equality of the copy with its source beyond the plumbing above (C17/C01)")
 
 	checkSetReplaces(p, r)
+	r.rule("C18.wrap-fresh-structure: every store into Wrapper.attrs / Wrapper.rels stores a map made in the storing function, so the wrappers Copy and New produce through Wrap own their field maps")
+	checkWrapFreshStructure(p, r)
 	h := newHeap(p)
 	// ---- R9 on the non-reflective copies
 	for _, name := range []string{"(*SoftResource).Copy", "(*SoftResource).New", "(Type).Copy"} {
@@ -1117,4 +1119,39 @@ func checkSetReplaces(p *Prog, r *Report) {
 		})
 	}
 	r.floor("reflect setters on the Wrapper's Set path", n, 2)
+}
+
+// checkWrapFreshStructure: every Wrapper owns the maps that describe its
+// fields. A store into Wrapper.attrs / Wrapper.rels stores a map made in the
+// storing function (never one taken from another wrapper, a type or a
+// package-level cache), so Copy and New - which go through Wrap - cannot
+// share them with their source.
+func checkWrapFreshStructure(p *Prog, r *Report) {
+	n := 0
+	for _, f := range p.Funcs {
+		eachInstr(f, func(ins ssa.Instruction) {
+			st, ok := ins.(*ssa.Store)
+			if !ok {
+				return
+			}
+			fa, ok := st.Addr.(*ssa.FieldAddr)
+			if !ok {
+				return
+			}
+			o, fl := fieldRef(fa.X, fa.Field)
+			if o != "Wrapper" || (fl != "attrs" && fl != "rels") {
+				return
+			}
+			n++
+			good := true
+			for _, v := range origins(st.Val) {
+				if mk, ok := v.(*ssa.MakeMap); !ok || mk.Parent() != f {
+					good = false
+				}
+			}
+			r.decide(good, "C18.wrap-fresh-structure", funcName(f)+":"+p.describe(st), p.pos(st.Pos()), "stores a map made here",
+				"a Wrapper's "+fl+" map is not a map made for this wrapper: wrappers of the same struct type (a resource and its copy, or a New instance) share it, so removing or adding a field through one changes what the other reports and marshals")
+		})
+	}
+	r.floor("stores into Wrapper.attrs / Wrapper.rels", n, 2)
 }
